@@ -83,6 +83,12 @@ module Pos :
 
 module Coq_Pos :
  sig
+  val succ : positive -> positive
+
+  val add : positive -> positive -> positive
+
+  val add_carry : positive -> positive -> positive
+
   val pred_double : positive -> positive
 
   type mask = Pos.mask =
@@ -100,6 +106,8 @@ module Coq_Pos :
 
   val sub_mask_carry : positive -> positive -> mask
 
+  val mul : positive -> positive -> positive
+
   val compare_cont : comparison -> positive -> positive -> comparison
 
   val compare : positive -> positive -> comparison
@@ -109,13 +117,31 @@ module Coq_Pos :
 
 module N :
  sig
+  val succ_double : n -> n
+
+  val double : n -> n
+
+  val add : n -> n -> n
+
   val sub : n -> n -> n
+
+  val mul : n -> n -> n
 
   val compare : n -> n -> comparison
 
   val eqb : n -> n -> bool
 
+  val leb : n -> n -> bool
+
   val ltb : n -> n -> bool
+
+  val pos_div_eucl : positive -> n -> n * n
+
+  val div_eucl : n -> n -> n * n
+
+  val div : n -> n -> n
+
+  val modulo : n -> n -> n
  end
 
 module Z :
@@ -123,7 +149,7 @@ module Z :
   val eqb : z -> z -> bool
  end
 
-type 'line exp = { opt : bool; mul : bool; mt : ('line -> bool) }
+type 'line exp = { opt : bool; mul0 : bool; mt : ('line -> bool) }
 
 type 'line entry =
 | EMatched of nat * (nat * 'line) list
@@ -304,3 +330,81 @@ val run_exit : (tcase list * exec_result) list -> z
 val run_outcomes : (tcase list * exec_result) list -> res option list list
 
 val stream_ok : n option -> bool -> bool -> bool
+
+val is_scalar : n -> bool
+
+val enc : n -> n list
+
+val cont : n -> bool
+
+val dec1 : n list -> (n * n list) option
+
+val dec_all : nat -> n list -> n list option
+
+val utf8_decode : n list -> n list option
+
+val utf8_encode : n list -> n list
+
+val other_ranges : (n * n) list
+
+val hexd : n -> n
+
+val printable : n -> bool
+
+val byte_to_ascii : n -> n list
+
+val has_unprintable_ascii : n list -> bool
+
+val escaped_printable_ascii : n list -> n list
+
+val in_ranges : (n * n) list -> n -> bool
+
+val is_other : n -> bool
+
+val esc_char : bool -> n -> n list
+
+val escaped_printable_unicode : n list -> n list
+
+val has_unprintable_unicode : n list -> bool
+
+type mode =
+| Ascii
+| Unicode
+
+type written =
+| Plain of n list
+| Escaped of n list
+
+val trim_newlines_rev : n list -> n list
+
+val trim_newlines : n list -> n list
+
+val has_unprintable : mode -> n list -> bool
+
+val escaped_printable : mode -> n list -> n list
+
+val text_of : n list -> n list
+
+val escaped_expectation : mode -> n list -> written
+
+val sel : n -> n list
+
+val unescape_tabs : n list -> n list
+
+val digit : n -> n -> n option
+
+val two : n -> n -> n -> n option
+
+val resolve : n list -> n list option
+
+val decode : n list -> n list option
+
+val list_eqb : n list -> n list -> bool
+
+val escaped_matches : n list -> n list -> bool option
+
+val make_exp : bool -> bool -> (nat -> bool) -> nat exp
+
+val exp_opt : nat exp -> bool
+
+val exp_mul : nat exp -> bool
